@@ -16,7 +16,7 @@ import (
 
 type SolverStats struct {
 	Queries, Sat, Unsat, Unknown int
-	HardQueries                  int
+	HardQueries, Escalated       int
 	Time                         time.Duration
 }
 
@@ -34,6 +34,8 @@ type Solver struct {
 	tee      *os.File
 	timeout  int // ms per query (0 = none)
 }
+
+var slowLog = os.Getenv("GOSYM_SLOWLOG") != ""
 
 type SolverErr struct{ msg string }
 
@@ -159,7 +161,18 @@ const (
 // Check: is pc ∧ extra satisfiable?  vars: terms whose values are wanted when sat.
 func (s *Solver) Check(pc []*Term, extra *Term, hard bool, vars []*Term) (Result, map[string]uint64) {
 	t0 := time.Now()
-	defer func() { s.Stats.Time += time.Since(t0); s.Stats.Queries++ }()
+	defer func() {
+		d := time.Since(t0)
+		s.Stats.Time += d
+		s.Stats.Queries++
+		if slowLog && d > 500*time.Millisecond {
+			x := "nil"
+			if extra != nil {
+				x = extra.ref()
+			}
+			fmt.Fprintf(os.Stderr, "slow query %.1fs hard=%v pc=%d extra=%s vars=%d\n", d.Seconds(), hard, len(pc), x, len(vars))
+		}
+	}()
 	s.sync(pc)
 	if extra != nil {
 		s.define(extra)
@@ -171,18 +184,26 @@ func (s *Solver) Check(pc []*Term, extra *Term, hard bool, vars []*Term) (Result
 	if extra != nil {
 		s.send("(assert " + extra.ref() + ")")
 	}
+	var res string
 	if hard {
 		s.Stats.HardQueries++
+	}
+	// cheap attempt in the incremental core first (no re-bit-blasting), then the qfbv tactic
+	s.send("(set-option :timeout 250)")
+	s.send("(check-sat)")
+	s.send("(set-option :timeout 4294967295)")
+	s.in.Flush()
+	res = strings.TrimSpace(s.readLine())
+	if res != "sat" && res != "unsat" {
+		s.Stats.Escalated++
 		if s.timeout > 0 {
 			s.send(fmt.Sprintf("(check-sat-using (try-for qfbv %d))", s.timeout))
 		} else {
 			s.send("(check-sat-using qfbv)")
 		}
-	} else {
-		s.send("(check-sat)")
+		s.in.Flush()
+		res = strings.TrimSpace(s.readLine())
 	}
-	s.in.Flush()
-	res := strings.TrimSpace(s.readLine())
 	var model map[string]uint64
 	r := Unknown
 	switch res {
